@@ -128,7 +128,7 @@ def run(ctx):
     h = common.build(ctx)
     if not (drv and h):
         return
-    n = 250 if ctx.tier == "quick" else 6000
+    n = 160 if ctx.tier == "quick" else 1500
     if ctx.broken:
         n *= 10
     corpus = [l.strip() for l in open(ctx.pdir + "/corpus.txt") if l.strip() and not l.startswith("#")]
